@@ -304,7 +304,9 @@ func appendSnapshotVars(b []byte, s *slip.Scope) []byte {
 		if !isCorePackage(vv.Pkg) {
 			b = appendDefVar(b, s, vv)
 		}
-		b = appendSetq(b, s, vv)
+		if vv.Val != slip.Unbound { // declared but not bound, nothing to set
+			b = appendSetq(b, s, vv)
+		}
 	}
 	return b
 }
